@@ -2391,7 +2391,7 @@ impl Context {
 
                 let del = self.try_make_delay(&f_val, args);
                 if let Some((d, states)) = del {
-                    return (d, numeric!(), states);
+                    return (d, numeric!(), [app_state, states].concat());
                 }
 
                 // Get function parameter info
